@@ -658,6 +658,8 @@ func runC05(c *config) {
 		{"%a = type %b\n", "", "Err"},
 		{"%a = type opaque\n%a = type { i32 }\n", "typedef_after_opaque", "Err"},
 		{"%v = type <vscale x 2 x i32>\n", "scalable_typedef", "Ok"},
+		{"define i32 @f(i32) {\nentry:\n\tret i32 %\"\"\n}\n", "empty_quoted_name", "Err"},
+		{"@0 = global i32 0\n@p = global i32* @\"\"\n", "empty_quoted_name", "Err"},
 		{"@g = global i32* @h\n", "", "Err"},
 		{"define void @f() {\n\tbr label %nope\n}\n", "", "Err"},
 		{"define void @f() {\n\tret i8* blockaddress(@f, %nope)\n}\n", "", "Err"},
